@@ -36,6 +36,9 @@ def run(c):
     binary = c.go_build(HARNESS)
     if binary:
         gen(c, binary)
+    # helper developments (moved out of / added next to Props/C20.lean) are audited like the property file itself
+    c.prove("SH.Lemmas.Journal", extra_files=["SH/Model/Journal.lean", "SH/Gen/C20.lean"])
+    c.prove("SH.Lemmas.JournalConv")
     c.prove("SH.Props.C20", extra_files=["SH/Model/Journal.lean", "SH/Model/MetaIndex.lean", "SH/Gen/C20.lean"])
     drv = c.driver(DRIVER)
     if binary and drv:
@@ -61,24 +64,36 @@ def run(c):
 META = {
     "level": "proof",
     "technique": ("Lean 4 theorems over an executable model of JournalFast (add/diff/applyUpdate/compaction/save/load) and of "
-                  "MetricsStorage.ApplyEvent (id and name indexes, group assignment), induction over event sequences and histories; "
-                  "op-by-op differential correspondence of the compiled model with a real replica tree; direct oracle on the real objects"),
-    "text": ("Kernel-checked: (1) for every source history with unique names and every increasing sub-sequence of it applied in any "
-             "batching (what latest-version-only delivery, cuts, compaction skips and reloads produce), every metric/group/namespace the "
-             "replica holds under a name that has been its source name since the replica's version is found by that name, and every name "
-             "index entry is the id index entry of that name; (2) the state hash is the xor of the entry hashes for every op sequence, "
-             "hence equal for journals with the same contents whatever the versions and order; (3) the journal keeps one entry per entity, "
-             "ascending, and a diff is a non-empty gap-free prefix of what the requester lacks, so delivery never skips an entity; "
-             "(4) groupsOrdered is name-descending, hence the first prefix match is the longest enabled user group prefix; "
-             "(5) truncation keeps a prefix of complete chunks and a reloaded journal satisfies the same invariant with loaderVersion >= the "
-             "last version read. The model is tied to the "
-             "code by replaying each generated history op by op on real JournalFast/MetricsStorage objects and on the compiled Lean "
-             "model and diffing versions, hashes, journal order and all index maps."),
+                  "MetricsStorage.ApplyEvent (id and name indexes, group assignment), induction over event sequences, histories and "
+                  "op schedules; op-by-op differential correspondence of the compiled model with a real replica tree; direct oracle "
+                  "on the real objects"),
+    "text": ("Kernel-checked: (1) `converges`: for one hop of the chain (an upstream journal that only grows — the source — and a "
+             "replica, compact or not, with its file) and EVERY schedule of upstream edits, deliveries with any item/byte limits cut "
+             "anywhere, Save and restarts from the file truncated at any offset, the invariant 'replica complete up to its "
+             "loaderVersion, nothing foreign, one entry per entity, hash = xor of entry hashes' holds, and whenever the replica's "
+             "loaderVersion reaches the upstream version it holds exactly the upstream's non-discarded entities, each with the "
+             "transported (and, for compact journals, compacted) content of the upstream's latest version, with equal versions for "
+             "non-compact replicas; (2) `replicas_same_hash`: two replicas of the same kind over the same upstream history, each with "
+             "its own schedule, have equal state hashes whenever both have caught up; (3) `lookup_by_name_current` / "
+             "`lookup_by_name_checked_source`: for every history of a source that checks the name at the moment of the edit (renames "
+             "and reuse of freed names included) and every increasing sub-sequence of it applied in any batching, every metric / "
+             "group / namespace the replica holds under a name that has been its source name since the replica's version is found by "
+             "that name, and every name-index entry is the id-index entry of that name (false for the pinned code: `decide` witness); "
+             "(4) `groups_ordered_every_batch` + `group_assignment` + `calcGroup_longest_prefix`: after every ApplyEvent batch "
+             "groupsOrdered is name-descending and exactly the enabled user groups, and each metric's group is the one with the longest "
+             "name that is a prefix of the metric name; (5) `delivery_never_skips`, `truncate_keeps_prefix`, `load_inv`. The model is "
+             "tied to the code by replaying each generated history op by op on real JournalFast/MetricsStorage objects and on the "
+             "compiled Lean model and diffing versions, hashes, journal order and all index maps; the hypotheses of (1) about the "
+             "observed transport/compaction functions (they keep type and id, discard per entity, positive sizes) are checked on the "
+             "real code for every generated content (oracle table-assumption-violated)."),
     "note": ("Trusted: Lean kernel; correspondence on generated histories (quick 300, thorough 4000 cases of 20-70 ops); contents, hashes, "
-             "compaction and transport results are inputs observed on the real code. Partial: end-to-end convergence of a whole replica "
-             "tree with compaction and truncated reloads is established per step (diff prefix, applyUpdate, reload lemmas) and by the "
-             "direct oracle at every synced point, not as one Lean theorem over all schedules (`converges_step_partial` is one delivery "
-             "step of the non-compact chain; the full statement is kept as a comment in Props/C20.lean). Defect found on the pinned tree: ApplyEvent deleted the old name unconditionally on "
-             "rename and rebuilt the metric name index from the id index in map order; see fixes/C20-name-index.diff."),
+             "compaction and transport results are inputs observed on the real code. Partial: `converges` is per hop and needs an "
+             "upstream that is never rolled back — complete for source -> aggregator; for aggregator -> agent it holds while the "
+             "aggregator's journal only grows. An agent behind an aggregator that restarts from an old or truncated file (agent "
+             "transiently ahead of its upstream) is not covered by a theorem; the direct oracle checks it on the real code at every "
+             "synced point (replica-missing/stale/extra-entity, hash-diverged*). A compact replica may keep an older version number "
+             "for an entity whose compact form did not change (content equality, not version equality, is proved for compact "
+             "journals). Defect of the pinned tree (fixed in /repo as ebafde2e, fixes/C20-name-index.diff): ApplyEvent deleted the old "
+             "name unconditionally on rename and rebuilt the metric name index from the id index in map order."),
     "design_ref": "DESIGN.md §6 C20",
 }
